@@ -19,7 +19,10 @@ use serde::de::DeserializeOwned;
 use serde::Serialize;
 use serde_json::{json, Value};
 
-pub const VERIF_DIR: &str = "/verif";
+/// root of the verification tree (the directory of `check`); /verif unless VERIF_DIR says otherwise
+pub fn verif_dir() -> String {
+    std::env::var("VERIF_DIR").unwrap_or_else(|_| "/verif".to_string())
+}
 
 #[derive(Clone, Copy, PartialEq, Eq, Debug)]
 pub enum Tier {
@@ -241,7 +244,7 @@ impl Ctx {
         let case_v = serde_json::to_value(case).unwrap_or(Value::Null);
         let body = json!({"property": self.prop, "check": check, "what": what, "case": case_v});
         let text = serde_json::to_string_pretty(&body).unwrap();
-        let dir = PathBuf::from(VERIF_DIR).join("replays");
+        let dir = PathBuf::from(verif_dir()).join("replays");
         let _ = std::fs::create_dir_all(&dir);
         let path = dir.join(format!("{}-{:016x}.json", self.prop, fnv(&text)));
         let _ = std::fs::write(&path, &text);
@@ -406,7 +409,7 @@ impl Ctx {
 
     /// Replay the saved regression cases of this property (strictly) before the generated ones.
     pub fn regress_files(&self) -> Vec<PathBuf> {
-        let dir = Path::new(VERIF_DIR).join("regress");
+        let dir = Path::new(&verif_dir()).join("regress");
         let mut v: Vec<PathBuf> = std::fs::read_dir(&dir)
             .map(|rd| {
                 rd.filter_map(|e| e.ok())
@@ -544,7 +547,7 @@ impl Ctx {
             "violation_list": self.violations,
             "inconclusive": self.inconclusive,
         });
-        let dir = Path::new(VERIF_DIR).join("evidence");
+        let dir = Path::new(&verif_dir()).join("evidence");
         let _ = std::fs::create_dir_all(&dir);
         let path = dir.join(format!("{}.json", self.prop));
         if let Err(e) = std::fs::write(&path, serde_json::to_string_pretty(&ev).unwrap()) {
@@ -572,7 +575,7 @@ impl Ctx {
 }
 
 fn load_known(prop: &str) -> Vec<KnownFinding> {
-    let path = Path::new(VERIF_DIR).join("known-findings.json");
+    let path = Path::new(&verif_dir()).join("known-findings.json");
     let text = match std::fs::read_to_string(&path) {
         Ok(t) => t,
         Err(_) => return Vec::new(),
